@@ -904,6 +904,34 @@ func caseRawString(r *gen.Rand, idx int) {
 	emit(&Case{I: idx, Class: "rawstring", Mult: 1, In: hx(text), Text: text, Err: isErr, Rows: rows, Nontrivial: true})
 }
 
+// caseTsWhitespace: white space of every kind around the timestamp (strings.TrimSpace in nextTimestamp removes the
+// Unicode White_Space characters, not only the ASCII ones), byte sequences that only look like it, digits interrupted
+// by it. Validity is not decided here: model and implementation must agree.
+var wsPieces = []string{" ", "\t", "\v", "\f", "\u0085", "\u00a0", "\u1680", "\u2000", "\u2003", "\u200a", "\u2028", "\u2029", "\u202f", "\u205f", "\u3000",
+	"\u200b", "\u180e", "\ufeff", "\xe2\x80", "\xc2", "\xa0", "\x85", "\xe3\x80\x81", "\xe2\x80\x8b", "\x00", "x"}
+
+func caseTsWhitespace(r *gen.Rand, idx int) {
+	ws := func() string {
+		var sb strings.Builder
+		for i, n := 0, r.Intn(3); i < n; i++ {
+			if r.Chance(3, 4) {
+				sb.WriteString(wsPieces[r.Intn(15)])
+			} else {
+				sb.WriteString(gen.Pick(r, wsPieces))
+			}
+		}
+		return sb.String()
+	}
+	digits := strconv.FormatInt(genTs(r), 10)
+	if r.Chance(1, 8) {
+		k := r.Intn(len(digits) + 1)
+		digits = digits[:k] + ws() + digits[k:]
+	}
+	text := "m," + "k=v x=" + gen.Pick(r, []string{"1i", "2.5", "t", "\"s\""}) + " " + ws() + digits + ws()
+	rows, isErr := runImpl([]byte(text), 1)
+	emit(&Case{I: idx, Class: "tsws", Mult: 1, In: hx(text), Text: text, Err: isErr, Rows: rows, Nontrivial: true})
+}
+
 // corpus entry: {"name":..., "text":..., "mult":1, "invalid":true|false, "sig":"C06-...", "ints":{"x":"9007199254740993"}}
 type corpusEntry struct {
 	Name    string            `json:"name"`
@@ -1013,7 +1041,9 @@ func main() {
 	}
 	r := gen.FromEnv(6)
 	for k := 0; k < n; k++ {
-		switch x := r.Intn(26); {
+		switch x := r.Intn(27); {
+		case x == 26:
+			caseTsWhitespace(r, idx)
 		case x == 25:
 			caseFloats(r, idx)
 		case x < 9:
